@@ -2067,3 +2067,32 @@ Proof.
   destruct (fileslice_eq_numpy h file (l1 ++ IEll :: l2) shape w off o c Hh Hw Hoff Hcan Hval Hfit) as [E1 E2].
   split; [exact E1|eexists; exact E2].
 Qed.
+
+(* predict_shape on a user-level index: the shape NumPy gives (np_shape of the canonical index) *)
+Lemma predict_loop_valid : forall c pre sh, ix_valid sh c ->
+  predict_loop c (pre ++ sh) (zlen pre) = Ok (np_shape sh c).
+Proof.
+  induction c as [|x c IH]; intros pre sh Hv.
+  - reflexivity.
+  - destruct x as [k|s|]; cbn [ix_valid] in Hv.
+    + destruct sh as [|n sh]; [contradiction|]. destruct Hv as (Hn & Hk & Hv).
+      cbn [predict_loop np_shape tl].
+      replace (pre ++ n :: sh) with ((pre ++ [n]) ++ sh) by (rewrite <- app_assoc; reflexivity).
+      replace (zlen pre + 1) with (zlen (pre ++ [n])) by (unfold zlen; rewrite app_length; cbn [length]; lia).
+      now apply IH.
+    + destruct sh as [|n sh]; [contradiction|]. destruct Hv as (Hn & Hs & Hv). cbn [valid_cidx] in Hs.
+      cbn [predict_loop np_shape tl hd]. rewrite py_nth_app. cbn [bind].
+      rewrite slice2len_spec by assumption. cbn [bind].
+      replace (pre ++ n :: sh) with ((pre ++ [n]) ++ sh) by (rewrite <- app_assoc; reflexivity).
+      replace (zlen pre + 1) with (zlen (pre ++ [n])) by (unfold zlen; rewrite app_length; cbn [length]; lia).
+      rewrite IH by assumption. reflexivity.
+    + cbn [predict_loop np_shape]. rewrite IH by assumption. reflexivity.
+Qed.
+
+Theorem predict_shape_spec ix shape c :
+  canonical_slicers true ix shape = Ok c -> ix_valid shape c ->
+  predict_shape ix shape = Ok (np_shape shape c).
+Proof.
+  intros Hc Hv. unfold predict_shape. rewrite Hc. cbn [bind].
+  exact (predict_loop_valid c [] shape Hv).
+Qed.
